@@ -385,7 +385,7 @@ Proof.
   { apply tinv_set_retx; [exact Hr|]. apply Forall_map.
     pose proof (i_retx _ Hr) as H. revert H. apply Forall_impl. intros a Ha. exact Ha. }
   split.
-  - destruct (_ ++ _); [exact H3 | apply tinv_set_rto; exact H3].
+  - destruct (map t_seg _); [exact H3 | apply tinv_set_rto; exact H3].
   - apply Forall_app. split.
     + apply Forall_map. pose proof (i_one _ Hi) as H. revert H. apply Forall_impl. intros a Ha. exact Ha.
     + apply Forall_map. apply Forall_filter. pose proof (i_retx _ Hr) as H. revert H.
